@@ -160,10 +160,13 @@ package mcap
         && forall(j, 0, len(r1), r1[j] == at(HD, streamByte(l.reader, pos(l.reader) + j)))
     ensures [token-is-the-opcode-of-that-header] {C01 C09 C11} r2 == nil ==> r0 == tokenOf(at(HD, l.buf[0])) && r0 != TokenError
     ensures [no-token-without-error-or-record] {C09} r2 != nil ==> len(r1) == 0
+    ensures [record-is-in-the-callers-buffer-or-newly-allocated] {C01 C12} r2 == nil && len(r1) > 0 ==> base(r1) == base(p) || fresh(r1)
+    loop 1 invariant [record-is-in-the-callers-buffer-or-newly-allocated] {C01 C12} base(p) == old(base(p)) || fresh(p)
     ensures [source-fault-is-an-error-and-never-eof] {C15} (faulted() && !old(faulted()) ==> r2 != nil && !isEOF(r2)) && (old(faulted()) ==> faulted())
     loop 1 invariant [no-fault-so-far] {C15} faulted() == old(faulted())
     loop 1 backedge [unknown-opcode-skipped-whole] {C11} opcode > 15 && l.inChunk == athead(l.inChunk) ==> l.reader == athead(l.reader) && pos(l.reader) == athead(pos(l.reader)) + 9 + recordLen
     loop 1 backedge [end-of-chunk-returns-to-the-base-source] {C09 C01} athead(l.inChunk) && !l.inChunk ==> l.reader == l.basereader
+    loop 1 backedge [every-round-consumes-the-header-or-switches-source] {C10} opcode != OpAttachment && l.reader == athead(l.reader) && l.inChunk == athead(l.inChunk) ==> pos(l.reader) >= athead(pos(l.reader)) + 9
     ensures [invalid-chunk-token-only-for-a-crc-error] {C07} r0 == TokenInvalidChunk ==> isCRC(r2) && l.emitInvalidChunks
     ensures [reading-does-not-change-the-configuration] {C07 C10} l.validateChunkCRCs == old(l.validateChunkCRCs) && l.emitInvalidChunks == old(l.emitInvalidChunks) && l.emitChunks == old(l.emitChunks) && l.computeAttachmentCRCs == old(l.computeAttachmentCRCs) && l.maxRecordSize == old(l.maxRecordSize) && l.maxDecompressedChunkSize == old(l.maxDecompressedChunkSize)
     loop 1 invariant [reading-does-not-change-the-configuration] {C07 C10} l.validateChunkCRCs == old(l.validateChunkCRCs) && l.emitInvalidChunks == old(l.emitInvalidChunks) && l.emitChunks == old(l.emitChunks) && l.computeAttachmentCRCs == old(l.computeAttachmentCRCs) && l.maxRecordSize == old(l.maxRecordSize) && l.maxDecompressedChunkSize == old(l.maxDecompressedChunkSize)
@@ -232,7 +235,7 @@ package mcap
     ensures [uncopied-data-aliases-the-record] {C01} err == nil && !copyData ==> base(m.Data) == base(buf) && off(m.Data) == off(buf) + 22
 @*/
 
-/*@ spec wfUnindexed(it) = it != nil && wfLexer(it.lexer)
+/*@ spec wfUnindexed(it) = it != nil && wfLexer(it.lexer) && !it.lexer.emitChunks
 @*/
 
 /*@ func (*unindexedMessageIterator).NextInto
@@ -279,6 +282,7 @@ package mcap
     touches opts, r.l
     ensures fresh(result) && wfUnindexed(result)
     ensures [window-from-options] {C04} result.start == opts.StartNanos && result.end == opts.EndNanos
+    ensures [sequential-read-expands-chunks] {C12 C01 C09} result.lexer == r.l && !result.lexer.emitChunks
 @*/
 
 /*@ func (*Reader).indexedMessageIterator
@@ -720,6 +724,9 @@ package mcap
     spec lastMeta(w) = w.MetadataIndexes[len(w.MetadataIndexes)-1]
     spec groupRank(op) = ite(op == 3, 1, ite(op == 4, 2, ite(op == 11, 3, ite(op == 8, 4, ite(op == 10, 5, ite(op == 13, 6, 0))))))
     spec groupsContiguous(offs, endpos) = forall(k, 0, len(offs), wrap64(offs[k].GroupStart + offs[k].GroupLength) == ite(k + 1 < len(offs), offs[k+1].GroupStart, endpos))
+    spec groupWritten(w, g) = (g.GroupOpcode == 3 ==> !w.opts.SkipRepeatedSchemas && len(w.schemas) > 0) && (g.GroupOpcode == 4 ==> !w.opts.SkipRepeatedChannelInfos && len(w.channels) > 0)
+        && (g.GroupOpcode == 11 ==> !w.opts.SkipStatistics) && (g.GroupOpcode == 8 ==> !w.opts.SkipChunkIndex && len(w.ChunkIndexes) > 0)
+        && (g.GroupOpcode == 10 ==> !w.opts.SkipAttachmentIndex && len(w.AttachmentIndexes) > 0) && (g.GroupOpcode == 13 ==> !w.opts.SkipMetadataIndex && len(w.MetadataIndexes) > 0)
     spec groupsOrdered(offs) = forall(k, 0, len(offs), groupRank(offs[k].GroupOpcode) > 0) && forall(k, 0, len(offs) - 1, groupRank(offs[k].GroupOpcode) < groupRank(offs[k+1].GroupOpcode))
 @*/
 
@@ -914,6 +921,7 @@ package mcap
     requires [crc-inv] {C06} crcInv(w)
     ensures [crc-inv] {C06} crcInv(w)
     ensures [index-keys] {C05} old(idxKeyed(w)) ==> idxKeyed(w)
+    ensures [registry-only-grows] {C05} len(w.schemas) >= old(len(w.schemas))
 @*/
 /*@ func (*Writer).AddChannel
     safety C14
@@ -928,6 +936,7 @@ package mcap
     requires [crc-inv] {C06} crcInv(w)
     ensures [crc-inv] {C06} crcInv(w)
     ensures [index-keys] {C05} old(idxKeyed(w)) ==> idxKeyed(w)
+    ensures [registry-only-grows] {C05} len(w.channels) >= old(len(w.channels))
 @*/
 
 /*@ func (*Writer).WriteSchema
@@ -953,6 +962,7 @@ package mcap
         && le32at(arg2, 10 + len(s.Name) + len(s.Encoding)) == uint32(len(s.Data)) && len(arg2) == 14 + len(s.Name) + len(s.Encoding) + len(s.Data)
         && forall(k, 0, len(s.Name), arg2[6 + k] == s.Name[k]) && forall(k, 0, len(s.Data), arg2[14 + len(s.Name) + len(s.Encoding) + k] == s.Data[k])
     requires [scratch-buffer-is-private] {C01} s != nil ==> base(s.Data) != base(w.msg)
+    ensures [registry-only-grows] {C05} len(w.schemas) >= old(len(w.schemas))
     ensures [schema-record-size] {C01 C05} err == nil && !(w.opts.Chunked && !old(w.closed)) ==> w.w.size == wrap64(old(w.w.size) + 23 + len(s.Name) + len(s.Encoding) + len(s.Data))
     ensures [schema-record-size] {C01 C05} err == nil && w.opts.Chunked && !old(w.closed) && old(w.compressedWriter.size) < 4611686018427387904 ==> w.compressedWriter.size == old(w.compressedWriter.size) + 23 + len(s.Name) + len(s.Encoding) + len(s.Data)
 @*/
@@ -977,6 +987,7 @@ package mcap
         && forall(k, 0, len(c.Topic), arg2[8 + k] == c.Topic[k])
     call writeRecord#2 assert [channel-record-fields] {C01} arg1 == OpChannel && le16at(arg2, 0) == c.ID && le16at(arg2, 2) == c.SchemaID && le32at(arg2, 4) == uint32(len(c.Topic)) && le32at(arg2, 8 + len(c.Topic)) == uint32(len(c.MessageEncoding))
         && forall(k, 0, len(c.Topic), arg2[8 + k] == c.Topic[k])
+    ensures [registry-only-grows] {C05} len(w.channels) >= old(len(w.channels))
 @*/
 
 /*@ func (*Writer).WriteMessageIndex
@@ -1239,6 +1250,12 @@ package mcap
     loop 5 invariant [crc-state-kept] {C06} crcInv(w) && fileCrcKept(w, old(w.w.crc.crc), old(crcFrom(w)))
     ensures [summary-groups-contiguous] {C05} r1 == nil ==> groupsContiguous(r0, w.w.size) && (len(r0) > 0 ==> r0[0].GroupStart == old(w.w.size)) && (len(r0) == 0 ==> w.w.size == old(w.w.size))
     ensures [summary-groups-in-fixed-order] {C05} r1 == nil ==> groupsOrdered(r0)
+    ensures [group-entry-only-for-a-group-whose-records-are-written] {C05} r1 == nil ==> forall(k, 0, len(r0), groupWritten(w, r0[k]))
+    loop 1 invariant [group-entry-only-for-a-group-whose-records-are-written] {C05} forall(k, 0, len(offsets), groupWritten(w, offsets[k])) && len(w.ChunkIndexes) == old(len(w.ChunkIndexes)) && len(w.AttachmentIndexes) == old(len(w.AttachmentIndexes)) && len(w.MetadataIndexes) == old(len(w.MetadataIndexes)) && len(w.schemas) >= old(len(w.schemas)) && len(w.channels) >= old(len(w.channels))
+    loop 2 invariant [group-entry-only-for-a-group-whose-records-are-written] {C05} forall(k, 0, len(offsets), groupWritten(w, offsets[k])) && len(w.ChunkIndexes) == old(len(w.ChunkIndexes)) && len(w.AttachmentIndexes) == old(len(w.AttachmentIndexes)) && len(w.MetadataIndexes) == old(len(w.MetadataIndexes)) && len(w.schemas) >= old(len(w.schemas)) && len(w.channels) >= old(len(w.channels))
+    loop 3 invariant [group-entry-only-for-a-group-whose-records-are-written] {C05} forall(k, 0, len(offsets), groupWritten(w, offsets[k])) && len(w.ChunkIndexes) == old(len(w.ChunkIndexes)) && len(w.AttachmentIndexes) == old(len(w.AttachmentIndexes)) && len(w.MetadataIndexes) == old(len(w.MetadataIndexes)) && len(w.schemas) >= old(len(w.schemas)) && len(w.channels) >= old(len(w.channels))
+    loop 4 invariant [group-entry-only-for-a-group-whose-records-are-written] {C05} forall(k, 0, len(offsets), groupWritten(w, offsets[k])) && len(w.ChunkIndexes) == old(len(w.ChunkIndexes)) && len(w.AttachmentIndexes) == old(len(w.AttachmentIndexes)) && len(w.MetadataIndexes) == old(len(w.MetadataIndexes)) && len(w.schemas) >= old(len(w.schemas)) && len(w.channels) >= old(len(w.channels))
+    loop 5 invariant [group-entry-only-for-a-group-whose-records-are-written] {C05} forall(k, 0, len(offsets), groupWritten(w, offsets[k])) && len(w.ChunkIndexes) == old(len(w.ChunkIndexes)) && len(w.AttachmentIndexes) == old(len(w.AttachmentIndexes)) && len(w.MetadataIndexes) == old(len(w.MetadataIndexes)) && len(w.schemas) >= old(len(w.schemas)) && len(w.channels) >= old(len(w.channels))
 @*/
 
 /*@ func (*Writer).Close
